@@ -131,6 +131,10 @@ def run(tier):
             for i, line in enumerate(f):
                 if i in (0, 7):
                     ck.cov["samples"].append(json.loads(line))
+                if i > 7:
+                    break
+        if tier == "thorough":      # disk hygiene: hundreds of MB of cases; divergence records carry their own case
+            os.remove(cases)
     ck.cov["traces_validated_against_impl"] = total
     ck.cov["evaluations"] = total
     ck.cov["distinct_nontrivial"] = nontrivial
